@@ -228,6 +228,9 @@ FORMS = {
     'trailing-slash': dict(cwd='/data/run', root='/data/run', spell=lambda p: posixpath.basename(p) + '/'),
     'nested': dict(cwd='/data', root='/data/run', spell=lambda p: 'run/' + posixpath.basename(p)),
     'absolute-trailing-slash': dict(cwd='/elsewhere', root='/data/run', spell=lambda p: p + '/'),
+    # other spellings of the same directory: a last component `.`, doubled separators, a leading `./`
+    'dot-suffix': dict(cwd='/data/run', root='/data/run', spell=lambda p: posixpath.basename(p) + '/.'),
+    'double-slash': dict(cwd='/data', root='/data/run', spell=lambda p: './run//' + posixpath.basename(p) + '//'),
 }
 
 
@@ -378,7 +381,7 @@ def run_case(case):
             if inv.get('trunc'):
                 cutev = (ctx.data.get('cut') or [('', 0, '')])[0]
                 kind += '/' + ('at-fab-boundary' if 'early) end' in cutev[2] else ('inside-header' if 'inside the line' in cutev[2] else 'inside-payload'))
-            formtag = 'trailing-slash' if 'trailing' in case['form'] else 'plain-path'
+            formtag = 'trailing-slash' if 'trailing' in case['form'] else (case['form'] if case['form'] in ('dot-suffix', 'double-slash') else 'plain-path')
             sig = 'C13/%s/%s/%s' % (inv['name'], kind, formtag)
             if sig not in viol:
                 m = ctx.model()
@@ -627,7 +630,7 @@ def cases():
     for fname in FORMS:
         for i in range(n):
             name = invocations(FORMS[fname])[i]['name']
-            if tier == 'quick' and fname in ('nested', 'absolute-trailing-slash') and ('/' in name or i % 2):
+            if tier == 'quick' and fname in ('nested', 'absolute-trailing-slash', 'dot-suffix', 'double-slash') and ('/' in name or i % 2 == (fname in ('nested', 'absolute-trailing-slash'))):
                 continue
             if '/' in name and fname not in ('absolute', 'trailing-slash') and tier == 'quick':
                 continue
